@@ -71,9 +71,15 @@ func runC11Escalate(cs *Case, c *c10Case, sink *logSink, li *logging.Instance) {
 		emit(cs)
 		return
 	}
-	d, err := network.NewDriver("sim", options.WithCustomTransport(tr), options.WithReadDelay(20*time.Microsecond), options.WithTimeoutOps(300*time.Millisecond),
+	var extra []util.Option
+	if c.Refused {
+		dev.Secret = c.Secret + "-not"
+		extra = append(extra, options.WithFailedWhenContains([]string{"% Invalid input", "% Access denied", "% Bad secrets"}))
+		cs.Kind += "/refused"
+	}
+	d, err := network.NewDriver("sim", append([]util.Option{options.WithCustomTransport(tr), options.WithReadDelay(20 * time.Microsecond), options.WithTimeoutOps(300 * time.Millisecond),
 		options.WithPrivilegeLevels(pl), options.WithDefaultDesiredPriv("privilege-exec"), options.WithAuthSecondary(c.Secret),
-		options.WithLogger(li), options.WithChannelLog(sink))
+		options.WithLogger(li), options.WithChannelLog(sink)}, extra...)...)
 	if err != nil || d.Open() != nil {
 		cs.Oracle = "setup failed"
 		emit(cs)
@@ -116,8 +122,8 @@ func runC11Escalate(cs *Case, c *c10Case, sink *logSink, li *logging.Instance) {
 	}
 	cs.Obs = fmt.Sprintf("%s sync %s %s", out, hxList(wl), hx([]byte(cached)))
 	cs.Nontrivial = true
-	if c.WriteErr > 0 {
-		cs.Line = "" // failing writes are outside the model: log oracle only
+	if c.WriteErr > 0 || c.Refused {
+		cs.Line = "" // failing writes / a device with another secret are outside the model: log oracle only
 	}
 	if m := sink.containsAny(c.Secret); m != "" {
 		cs.Oracle = m
